@@ -17,6 +17,7 @@ CLAIMS = {
  "C09": ("model_checking", "All four loaders against the stored replica of every bounded history; in the explore runs every interleaving of the fetcher's worker goroutines (= every block arrival order) is enumerated by the engine's scheduler while data stays symbolic; result compared with the original log.", "§5 C09"),
  "C10": ("model_checking", "As C09 with every limit n in [0,size+1]; the expected set is computed by a reference oracle that does not depend on the schedule, so equality on every explored schedule is the required independence from concurrency and arrival order.", "§5 C10"),
  "C11": ("model_checking", "Symbolic fault table (absent / undecodable / hung) and exclusion set over the stored log, every worker interleaving; deadlock = non-termination; request journal checked for duplicates and excluded hashes; result compared with reference reachability.", "§5 C11"),
+ "C13": ("model_checking", "Every unordered combination of two (thorough: three) operations on one shared log from every bounded pre-state, every interleaving at lock operations within the preemption bound, with a vector-clock happens-before race detector on every heap cell; deadlock = no enabled goroutine; reads and final state checked against the structural predicates.", "§5 C13"),
  "C15": ("model_checking", "Iterator over the replica of every bounded history with every upper/lower bound combination and a symbolic amount, compared with a reference range computation; panics and a non-closed channel are violations.", "§5 C15"),
  "C16": ("model_checking", "Symbolic size bound n in [0,total+2] against the twin that merges unbounded, over the replicas of every bounded history and three orderings; panics are implicit violations.", "§5 C16"),
  "C19": ("model_checking", "Order laws as SMT obligations over all 2^64 clock times, symbolic clock-id bytes and symbolic hash ranks; sort.SliceStable interpreted from source for all input permutations of 3 entries.", "§5 C19"),
